@@ -275,6 +275,42 @@ def check(ctx, rep):
         else:
             rep.bad('SITE', key, b.where(bi), 'unclassified panic-capable construct: %s on %s' % (kind, fmt(term)[:120]))
             undischarged.setdefault(b.path, []).append(kind)
+    # no recursion: the depth of a recursive library function grows with its input (a list, a chain of sources) and ends in a
+    # stack overflow, which aborts the process - nothing the inventory of panic sites would show
+    graph = {}
+    for cr, b in bodies:
+        graph[b.path] = set(t_.get('resolved') for _, t_ in b.calls() if t_.get('resolved_local') and t_.get('resolved'))
+    for cr, b in bodies:
+        # a closure literal may be run by whoever it is handed to: count it as called by the body that creates it
+        if b.def_kind == 'Closure' and '::{closure' in b.path:
+            parent = b.path[:b.path.rindex('::{closure')]
+            if parent in graph:
+                graph[parent].add(b.path)
+    cyc = []
+    state = {}
+
+    def dfs(p_, stack):
+        state[p_] = 1
+        for q_ in graph.get(p_, ()):
+            if q_ not in graph:
+                continue
+            if state.get(q_) == 1:
+                cyc.append(stack[stack.index(q_):] + [q_] if q_ in stack else [p_, q_])
+            elif q_ not in state:
+                dfs(q_, stack + [q_])
+        state[p_] = 2
+    import sys as _sys
+    _sys.setrecursionlimit(max(_sys.getrecursionlimit(), 5000))
+    for p_ in sorted(graph):
+        if p_ not in state:
+            dfs(p_, [p_])
+    if cyc:
+        for c_ in cyc[:5]:
+            fb = [b for cr, b in bodies if b.path == c_[0]]
+            rep.bad('REC', 'recursion/%s' % (fb[0].short().replace('cadence::', '') if fb else c_[0]), fb[0].where() if fb else '',
+                    'recursive call chain %s: stack depth grows with the input (stack overflow aborts the process)' % ' -> '.join(x.rsplit('::', 2)[-1] if '::' in x else x for x in c_))
+    else:
+        rep.good('REC', 'no-recursion', '', 'the call graph of the %d library bodies is acyclic' % len(graph))
     # D3: critical sections free of undischarged sites
     # what runs while a sink mutex is held: the io::Write impls (line writer, adapters) and every crate-local function
     # they reach (statistics updates, the spy's send helper, ...)
@@ -419,7 +455,7 @@ def discharge(ctx, m, inv_ok, cr, b, bi, kind, term, T):
                 from .c17 import _is_unwrapped_global
                 if _is_unwrapped_global(ctx.mac, strip_generics(b.path)):
                     return True, 'D6: the documented panic of the statsd_* macros when no global client is set (C17), moved into a helper of the macro crate'
-        if k.endswith('as core::ops::index::Index>::index') and len(term[2]) == 2:
+        if k.startswith('<[') and k.endswith('as core::ops::index::Index>::index') and len(term[2]) == 2:      # slices only: a str range must also hit a char boundary
             # slice[..end] / slice[start..]: in bounds when std's algebra gives end <= len (start <= len)
             sl, rng = _canon(term[2][0]), norm(term[2][1])
             if rng[0] == 'adt' and rng[1] in ('core::ops::range::RangeTo', 'core::ops::range::RangeFrom'):
